@@ -90,6 +90,7 @@ bool atomic_intrusive_list_link_ops::try_lock_checking(
             val | lock_bit,
             std::memory_order_relaxed,
             std::memory_order_relaxed)) {
+      UNIFEX_VERIF_TSAN_ACQUIRE(&lk);
       head_val = val;
       return true;
     }
